@@ -1,4 +1,4 @@
-/* Prints, for every SSE2/SSSE3/AVX2 intrinsic used by libsodium's dolbeau ChaCha20 code, the result
+/* Prints, for every SSE2/SSSE3/AVX2 intrinsic used by libsodium's dolbeau ChaCha20 code and xmm6int Salsa20 code, the result
    computed by the REAL CPU on pseudo-random inputs, one line per call:
        op|arg|arg|...|result
    vector arguments/results are the hex of their memory image (16 or 32 bytes), scalars are decimal.
@@ -96,6 +96,21 @@ int main(void)
         IMM256(_mm256_srli_epi32, 32); IMM256(_mm256_srli_epi32, 200);
         IMM128(_mm_shuffle_epi32, 0x93); IMM128(_mm_shuffle_epi32, 0x4e); IMM128(_mm_shuffle_epi32, 0x39);
         IMM128(_mm_shuffle_epi32, 0x1b); IMM128(_mm_shuffle_epi32, 0x00); IMM128(_mm_shuffle_epi32, 0xff); IMM128(_mm_shuffle_epi32, 0xc6);
+        /* --- additions for the xmm6int Salsa20 code (Model/SalsaSimd.lean) --- */
+        /* the one new intrinsic: _mm_cvtsi128_si32 (u1.h / u0.h ONEQUAD_SHUFFLE), printed as the uint32_t it is assigned to */
+        { uint8_t a[16]; __m128i v = R128(a); uint32_t w = _mm_cvtsi128_si32(v);
+          printf("_mm_cvtsi128_si32|"); hex(a,16); printf("|%u\n", w); }
+        /* the `*(uint32_t *) (p + off)` accesses of u1.h / u0.h: a 4-byte load and a 4-byte store */
+        { uint8_t a[16]; uint32_t w; rndbytes(a, 16); memcpy(&w, a + 4, 4);
+          printf("load_u32|"); hex(a,16); printf("|4|%u\n", w);
+          w = (uint32_t) rnd(); memcpy(a + 8, &w, 4);
+          printf("store_u32|%u|", w); hex(a + 8, 4); printf("\n"); }
+        /* shift counts and shuffle immediates that only the Salsa20 code uses */
+        IMM128(_mm_slli_epi32, 9); IMM128(_mm_slli_epi32, 13); IMM128(_mm_slli_epi32, 18);
+        IMM128(_mm_srli_epi32, 23); IMM128(_mm_srli_epi32, 19); IMM128(_mm_srli_epi32, 14);
+        IMM256(_mm256_slli_epi32, 9); IMM256(_mm256_slli_epi32, 13); IMM256(_mm256_slli_epi32, 18);
+        IMM256(_mm256_srli_epi32, 23); IMM256(_mm256_srli_epi32, 19); IMM256(_mm256_srli_epi32, 14);
+        IMM128(_mm_shuffle_epi32, 0x55); IMM128(_mm_shuffle_epi32, 0xaa);
         P2X128(0x20); P2X128(0x31); P2X128(0x02); P2X128(0x13); P2X128(0x08); P2X128(0x80); P2X128(0x28); P2X128(0x9d);
     }
     /* the constants of the code, verbatim */
